@@ -4,11 +4,18 @@ import json, re, vlib
 FORMATS = ["json", "rdjson", "human"]
 
 
-def schema_text(i, faults):
-    base = ["type Query { a: Int, b(x: Int): String, e%d: Extra%d }" % (0, 0), "type Extra0 { x: Int }"] if i == 0 else \
+# a block string whose middle line starts with multi-byte Unicode white space (ideographic space, no-break space, em space) while its
+# neighbours are indented with ASCII: the lines around a diagnostic are what the renderers print as context
+UNI_WS = ["\u3000\u5168\u89d2\u306e\u8aac\u660e", "\u00a0note", "\u2003\u2003wide"]
+
+
+def schema_text(i, faults, uni=False):
+    base = ["type Query { a: Int, b(x: Int, s: String): String, e%d: Extra%d }" % (0, 0), "type Extra0 { x: Int }"] if i == 0 else \
            ["type Extra%d { x: Int }" % i, "extend type Query { e%d: Extra%d }" % (i, i)]
     lines = ["# schema file %d" % i] + base
     if "check" in faults:
+        if uni:
+            lines += ['  """', UNI_WS[i % 3], '  """']
         lines.append("  type Bad%d { x: Missing%d }" % (i, i))
     if "ext" in faults:
         lines.append("extend type Nope%d { a: Int }" % i)
@@ -17,7 +24,7 @@ def schema_text(i, faults):
     return "\n".join(lines) + "\n"
 
 
-def op_text(j, faults, lib_from=None, libv_from=None):
+def op_text(j, faults, lib_from=None, libv_from=None, uni=False):
     lines = []
     if lib_from is not None:
         lines.append("#import Lib%d from \"./o%d.graphql\"" % (lib_from, lib_from))
@@ -35,6 +42,8 @@ def op_text(j, faults, lib_from=None, libv_from=None):
     if "libvar" in faults:
         lines.append("  fragment LibV%d on Query { a b(x: $undefinedHere%d) }" % (j, j))
     if "check" in faults:
+        if uni:
+            lines += ['  query Pre%d { b(s: """' % j, UNI_WS[j % 3], '  """) }']
         lines.append("  query Bad%d { a nope }" % j)                      # same message and position in every such file
     if "parse" in faults:
         lines.append(" query {")
@@ -64,8 +73,9 @@ def materialise(p, fmt, pid):
         cfg += "      serverGraphqlOutput: ./gen/server.ts\n"
     files = [{"rel": "graphql.config.yaml", "text": cfg}]
     meta = []
+    uni = pid % 2 == 1          # every second run: Unicode white space at the start of a line next to the faults
     for i, f in enumerate(p["schema"]):
-        t = schema_text(i, f)
+        t = schema_text(i, f, uni)
         files.append({"rel": "schema/s%d.graphql" % i, "text": t})
         meta.append({"id": ["schema", i + 1], "rel": "schema/s%d.graphql" % i, "cp": [ord(c) for c in t]})
     n = len(p["ops"])
@@ -74,7 +84,7 @@ def materialise(p, fmt, pid):
         prev = (j - 1) % n
         lib_from = prev if ("libcheck" in p["ops"][prev] and (n > 1 or True)) else None
         libv_from = prev if "libvar" in p["ops"][prev] else None
-        t = op_text(j, f, lib_from, libv_from)
+        t = op_text(j, f, lib_from, libv_from, uni)
         files.append({"rel": "ops/o%d.graphql" % j, "text": t})
         meta.append({"id": ["operation", j + 1], "rel": "ops/o%d.graphql" % j, "cp": [ord(c) for c in t]})
     args = (["--output-format", fmt] if fmt != "human" else []) + list(p["commands"])
